@@ -269,7 +269,7 @@ def ladder(r, cls, length, pool_size=None):
 
 # ---------------------------------------------------------------- near pairs
 SUFFIX_DICT = {
-    "SemverVersion": ["-alpha", "-beta", "-rc1", "-rc.1", "-RC1", "+7", "+007", "+build", "+Build", "+incompatible", "-0", "-1", ".0", "-alpha.1", "-alpha.beta", "-a.b"],
+    "SemverVersion": ["-alpha", "-beta", "-rc1", "-rc.1", "-RC1", "+7", "+007", "+9", "+10", "+r9", "+r10", "-9", "-10", "+build", "+Build", "+incompatible", "-0", "-1", ".0", "-alpha.1", "-alpha.beta", "-a.b"],
     "PypiVersion": [".0", "a1", "b2", "rc1", ".post1", ".dev1", "+local", "+LOCAL", "-1", ".post", "a", "0"],
     "DebianVersion": ["~", "~~", "+", "-0", "-1", "a", "~rc1", "+b1", ".0", "0", "-", ".", "-0ubuntu1"],
     "RpmVersion": ["~", "^", "~rc1", "^git1", "-1", "_", ".0", "a", "0", "~~", "^^", ".a"],
